@@ -96,7 +96,9 @@ def bytes_to_blocks(
             # offset.
             n_args_override = n_args if n_args > 1 else None
         else:
-            n_args_override = None
+            # The compiler only leaves redundant EXTENDED_ARG prefixes in front of jumps,
+            # but hand written bytecode can have them anywhere, so keep those as well
+            n_args_override = n_args if n_args != _instrsize(arg) else None
 
         instruction = Instruction(
             name=dis.opname[opcode],
